@@ -23,7 +23,10 @@ MODELLED = ["libm exp/log/pow/sqrt/sin/cos (shared by model execution and C++)",
 ASSUMPTIONS = ["0 < alpha < 1, N >= 1 (the functions do not check their arguments)"]
 LEVEL = "proof"
 LEVEL_TEXT = ("PARTIAL. Lean 4 theorems over R about a line-by-line model of statan.cpp whose decision fragments (loop exit tests, "
-              "the maxd/mind rescaling block, the Chi_square selector and polynomials) are regenerated from the C++ on every run: "
+              "the maxd/mind rescaling block, the Chi_square selector and polynomials) are regenerated from the C++ on every run, and "
+              "which is proved EQUAL (C17_statan_source_tie) to Normal / Student / Chi_square / NormalDistribution regenerated whole "
+              "from the source - every coefficient, threshold, branch and statement; the two loop bodies of NormalDistribution are "
+              "pinned text: "
               "Normal(1-a) = -Normal(a), Student antisymmetry and Student(1/2,N) = 0; the closed forms N = 1 (Cauchy tail "
               "1/2 - arctan(t)/pi = a), N = 2, chi-square n = 2 (exp(-x/2) = p) and n = 1 (= Normal(p/2)^2) are exact inverses and "
               "strictly monotone (n = 1 given monotone Normal; the start value of Normal is proved monotone); no singular operation "
